@@ -22,7 +22,7 @@ def search(unit, prop):
         finally:
             kani_run.KANI_REPO = saved
         cmd = ['cargo', 'test', '--offline', '-p', d['crate'], '--lib', d['test'], '--', '--nocapture', '--test-threads', '1']
-        rc, out, wall = sh(cmd, cwd=NATIVE_REPO, env={'CARGO_TARGET_DIR': NATIVE_TARGET, 'RUST_BACKTRACE': '0'}, timeout=3600)
+        rc, out, wall = sh(cmd, cwd=NATIVE_REPO, env={'CARGO_TARGET_DIR': NATIVE_TARGET, 'RUST_BACKTRACE': '0'}, timeout=1500)
     wit = re.findall(r'VERIF-WITNESS.*', out)
     done = re.findall(r'VERIF-SEARCH-DONE.*', out)
     txt = [f'# command: {" ".join(cmd)}  (in a scratch copy of /repo with {d["append"]} appended to {d["file"]}; {wall:.0f}s)']
